@@ -6,11 +6,14 @@
    predicate (Session/LifeKF.v) and a witness history that replays on the real broker; the
    interleaving clause ("for every interleaving of the old connection's shutdown with the new
    connection") is decided on the window model Conc/Takeover.v for all schedules.
-   PARTIAL: the statement "every violation the monitor reports on a model trace is one of the four
-   known findings" (C16_modulo_findings for the sequential model) is checked on every run against
-   the real broker and the model but is not yet proved for all histories. *)
+   For all histories of the sequential model: C16_modulo_findings_partial (below) proves that every
+   violation the monitor reports with a SAFETY tag (published twice, after a normal DISCONNECT,
+   although cancelled, before its time, while alive / without a will, wrong content, dropped by a clean
+   start) is one of the known findings; the four LIVENESS tags (a due will is NOT published: V16_missing,
+   V16_missing_takeover, V16_late; not retained: V16_retain) are not covered by the proof - they are
+   decided on every run against the real broker.  The full statement is C16_modulo_findings_statement. *)
 From MV Require Import Base.Val Base.Sched Session.Lifecycle Session.LifeSpec Session.LifeKF Session.LifeProofs13 Session.LifeProofs16
-  Conc.Takeover Conc.TakeoverProofs.
+  Session.LifeProofs16M Conc.Takeover Conc.TakeoverProofs.
 Open Scope N_scope.
 
 Definition model_obs (k : caps) (ops : list op) : list obs := map obs_of (trace k init ops).
@@ -82,6 +85,56 @@ Proof. vm_compute. split; reflexivity. Qed.
 
 (* ---- for every history of operations (sequential model) ---- *)
 
+(* THE FULL STATEMENT (not proved in full): on the trace of every decodable history ([sane_ops]: only
+   an MQTT 5 CONNECT carries a will delay, only an MQTT 5 connection sends DISCONNECT properties), every
+   violation the monitor reports is a known finding. *)
+Definition C16_modulo_findings_statement : Prop :=
+  forall (k : caps) (ops : list op), sane_ops k init ops ->
+  Forall (fun v => kf_of k (model_obs k ops) v <> None) (mon16 k (model_obs k ops)).
+
+(* PROVED PART.  The same, except for violations with one of the four liveness tags ([uncovered]:
+   V16_missing, V16_missing_takeover, V16_late - a will that is due is not published - and V16_retain).
+   So, outside the known findings (KF_C16_takeover_delayed, KF_C16_delay_uncapped,
+   KF_C16_delay_fixed_at_connect, KF_C16_clean_reconnect; [kf_of] names the predicate that holds), in
+   every history: a connection's will is never published twice (V16_once), never after a normal
+   DISCONNECT (V16_after_normal), never while the connection is alive or without a registered will
+   (V16_unexpected), never before min(delay, session end) (V16_early), never after a resuming connection
+   cancelled it (V16_cancelled), always with the registered content (V16_content), and a pending will is
+   dropped by a later connection only as KF_C16_clean_reconnect describes (V16_lost_clean).
+   What is missing for the full statement: that a will which is due IS published (at the abnormal end,
+   by the end of the taken-over connection's teardown, by the tick after its deadline) unless
+   KF_C16_takeover_delayed (incl. its knock-on disjuncts) / KF_C16_delay_uncapped hold, and the retain
+   clause modulo KF_C16_delayed_retain_gone. *)
+Theorem C16_modulo_findings_partial : forall (k : caps) (ops : list op), sane_ops k init ops ->
+  Forall (fun v => uncovered (v_tag v) = true \/ kf_of k (model_obs k ops) v <> None) (mon16 k (model_obs k ops)).
+Proof. exact mon16_explained. Qed.
+
+(* The order of the delayed-will table.  server.go sendDelayedLWT ranges over a Go map, so the real
+   broker handles the entries that are due in one tick in an arbitrary order (observable: order of the
+   publications; which of two retained wills on one topic stays retained).  The replay engine therefore
+   rearranges the model's table into the observed order before a tick ([reorder_wills]).  That is a
+   permutation of the table, the invariant behind the theorem above does not depend on the order of the
+   table, and the theorem holds from every state that satisfies the invariant - so it also covers runs
+   in which the table is rearranged between operations. *)
+Theorem C16_tick_order_is_a_permutation : forall (order : list N) (s : state),
+  Permutation.Permutation (st_wills (LifeEngine.reorder_wills order s)) (st_wills s).
+Proof. exact reorder_wills_perm. Qed.
+
+Theorem C16_invariant_ignores_table_order : forall k m s h0 l,
+  KI k m s h0 -> Permutation.Permutation l (st_wills s) -> KI k m (set_wills s l) h0.
+Proof. exact KI_perm. Qed.
+
+Theorem C16_modulo_findings_partial_from : forall k m s h0 ops, KI k m s h0 -> sane_ops k s ops ->
+  Forall (fun v => uncovered (v_tag v) = true \/ kf_of k (h0 ++ map obs_of (trace k s ops)) v <> None)
+         (run_mon (m16_step k) (length h0) m (map obs_of (trace k s ops))).
+Proof. exact mon16_explained_from. Qed.
+
+(* the three clauses for which there is no finding at all *)
+Theorem C16_never_unexpected_after_normal_or_altered : forall (k : caps) (ops : list op), sane_ops k init ops ->
+  Forall (fun v => v_tag v <> V16_unexpected /\ v_tag v <> V16_after_normal /\ v_tag v <> V16_content) (mon16 k (model_obs k ops)).
+Proof. exact mon16_safety_clauses. Qed.
+
+
 (* content: every will publication, in every history, carries topic, payload, QoS and retain flag of a
    CONNECT of that connection which had the will flag set ([reg_of]: the wills registered by the
    history's CONNECTs; connection numbers are fresh, so it is THE will the connection registered) *)
@@ -135,6 +188,11 @@ Print Assumptions C16_refuted_delay_uncapped.
 Print Assumptions C16_refuted_delay_fixed_at_connect.
 Print Assumptions C16_refuted_clean_reconnect.
 Print Assumptions C16_refuted_delayed_retain.
+Print Assumptions C16_modulo_findings_partial.
+Print Assumptions C16_never_unexpected_after_normal_or_altered.
+Print Assumptions C16_tick_order_is_a_permutation.
+Print Assumptions C16_invariant_ignores_table_order.
+Print Assumptions C16_modulo_findings_partial_from.
 Print Assumptions C16_content.
 Print Assumptions C16_publication_sources.
 Print Assumptions C16_once_schedules.
